@@ -105,6 +105,11 @@ def run_case(case):
     if fl.ctor_err or fl.und_T or fl.und or fl.T is None or O.hard_errors(p.block):
         counters["undecided_or_errors"] = 1
         return {"nontrivial": False, "violations": [], "counters": counters}
+    if p.block.trials_per_sample() != fl.T:
+        # the checker measures against the reported trial count; a reported count that differs from the documented
+        # one is C16's subject and makes every documented-valid candidate a length mismatch here
+        counters["reported_T_differs_from_documented"] = 1
+        return {"nontrivial": False, "violations": [], "counters": counters}
     rs = ref.enumerate_valid(p.spec, fl, cap=CAP, node_cap=150000)
     if not rs:
         counters["no_valid_sequence_or_too_big"] = 1
